@@ -147,6 +147,10 @@ def run(ctx, rep):
     check_floor(fx, rep)
     check_output(fx, rep)
     check_payments(fx, rep)
+    # the amount deducted up front (gas_limit * price + blob fee at the *current* blob price): C08 R4
+    import engine
+    import c08
+    c08.check_deduction(fx, engine.SubReport(rep, 'C08'))
     rep.assume('new InstructionResult variants default to the error class (all gas consumed) unless listed in the reference')
 
 
